@@ -53,6 +53,13 @@ def _code_term(I, c):
     return z3.Const(I.ctx.fresh_name("somecode"), sort_of(Abs("Code")))
 
 
+def _val_or_fresh(I, x):
+    try:
+        return SV(val_term(I, x), Abs("Val"))
+    except Unsupported:
+        return SV(z3.Const(I.ctx.fresh_name("nv"), sort_of(Abs("Val"))), Abs("Val"))
+
+
 def encode_change(I, v):
     """A yielded Change dataclass instance -> Chg record (what the contracts talk about)."""
     if isinstance(v, Obj) and v.rec is not None:
@@ -67,8 +74,8 @@ def encode_change(I, v):
     rec = Obj("Chg", {
         "kind": kind, "flag": f["flag"],
         "node": SV(_node_term(I, node), Abs("Node")),
-        "old_value": SV(val_term(I, f.get("old_value", Ellipsis)), Abs("Val")) if not isinstance(f.get("old_value"), Opaque) else SV(z3.Const(I.ctx.fresh_name("ov"), sort_of(Abs("Val"))), Abs("Val")),
-        "new_value": SV(val_term(I, f.get("new_value", f.get("new_values", Ellipsis))), Abs("Val")) if not isinstance(f.get("new_value", f.get("new_values")), (Opaque,)) and not hasattr(f.get("new_value", f.get("new_values")), "items") else SV(z3.Const(I.ctx.fresh_name("nv"), sort_of(Abs("Val"))), Abs("Val")),
+        "old_value": _val_or_fresh(I, f.get("old_value", Ellipsis)),
+        "new_value": _val_or_fresh(I, f.get("new_value", f.get("new_values", Ellipsis))),
         "code": SV(_code_term(I, f.get("new_code")), Abs("Code")),
         "position": pos if pos is not None else -1,
     }, rec=chg)
@@ -131,4 +138,4 @@ R.DEFAULT_POLICIES.update({
     "Flags.all": "inline", "Flags.__init__": "inline", "Flags.__iter__": "inline", "Flags.to_set": "inline",
 })
 
-R.DEFAULT_POLICIES["attrs"].update({"Node.lineno": "Int", "Node.col_offset": "Int"})
+R.DEFAULT_POLICIES["attrs"].update({"Node.lineno": "Int", "Node.col_offset": "Int", "Node.end_lineno": "Int", "Node.end_col_offset": "Int"})
